@@ -66,6 +66,7 @@ inductive ErrKind where
   | rocExceeds | rocRegistered | sflaRegistered
   | splitAllNeg | reverseSplitFraction
   | lookAllNeg | lookSellerNeg | lookTotalNeg | lookAffNeg   -- superficial_loss.rs scan
+  | splitConflict                                   -- splits.rs: non-global split near a global split
 deriving Repr, DecidableEq, Inhabited
 
 /-- Panic sites of the bookkeeping core that the model carries explicitly. -/
